@@ -21,6 +21,7 @@ import (
 	"encoding/hex"
 	"fmt"
 	"net"
+	"os"
 	"sort"
 	"strings"
 	"sync"
@@ -554,6 +555,11 @@ func main() {
 		return ps
 	}
 
+	wireKinds := []string{"info-byte", "info-ts", "info-segid", "info-unknown-field", "hb-byte", "sig-byte",
+		"hb-byte", "sig-swap", "hb-swap", "sig-truncate", "sig-byte"}
+	structKinds := []string{"remove", "insert", "swap", "dup", "truncate", "lie-local", "remove", "lie-exp", "lie-ts",
+		"move-last-first", "insert", "empty"}
+	mutTried, mutDone := map[string]int{}, map[string]int{}
 	ncases := run.Count(200, 6000)
 	for ci := 0; ci < ncases; ci++ {
 		r := rng.Fork(uint64(1000 + ci))
@@ -745,8 +751,9 @@ func main() {
 			for tries := 0; tries < 3; tries++ {
 				pb := clonePB(seg.PathSegmentToPB(ps))
 				k := r.Intn(n)
-				m := vgen.Pick(r, "info-byte", "info-ts", "info-segid", "info-unknown-field", "hb-byte", "hb-byte",
-					"sig-byte", "sig-byte", "sig-swap", "hb-swap", "sig-truncate")
+				// kinds are taken in turn (from the case index), so that every kind occurs in every run
+				m := wireKinds[(ci*3+tries)%len(wireKinds)]
+				mutTried["wire:"+m]++
 				switch m {
 				case "info-byte":
 					p := r.Intn(len(pb.SegmentInfo))
@@ -785,6 +792,8 @@ func main() {
 					run.Tally("wire-parse-rejected:" + m)
 					continue
 				}
+				mutDone["wire:"+m]++
+				run.Tally("mut:wire:" + m)
 				steps = append(steps, step{mp, true, fmt.Sprintf("wire %s entry %d", m, k)})
 			}
 			if len(steps) == 0 {
@@ -798,8 +807,10 @@ func main() {
 			for tries := 0; tries < 3; tries++ {
 				cp := ps.ShallowCopy()
 				k := r.Intn(n)
-				m := vgen.Pick(r, "remove", "remove", "insert", "insert", "swap", "dup", "truncate", "lie-local",
-					"lie-exp", "lie-ts", "move-last-first", "empty")
+				m := structKinds[(ci*3+tries)%len(structKinds)]
+				mutTried["struct:"+m]++
+				mutDone["struct:"+m]++
+				run.Tally("mut:struct:" + m)
 				es := append([]seg.ASEntry{}, cp.ASEntries...)
 				consistent := true
 				switch m {
@@ -957,6 +968,29 @@ func main() {
 				"unit_reported_verified": j.unitOK, "crypto_accepts": acc})
 	}
 	_ = sort.Strings
+	// every mutation kind must have been exercised (full runs only, not -only replays):
+	// attempted on the real parser at least minKind times, and — except hb-swap, which Validate
+	// rejects unless it is a no-op — verified at least once
+	if run.WantID(-1) {
+		minKind := 2
+		var missing []string
+		for _, k := range wireKinds {
+			if mutTried["wire:"+k] < minKind || (k != "hb-swap" && mutDone["wire:"+k] < 1) {
+				missing = append(missing, fmt.Sprintf("wire:%s tried=%d verified=%d", k, mutTried["wire:"+k], mutDone["wire:"+k]))
+			}
+		}
+		for _, k := range structKinds {
+			if mutDone["struct:"+k] < minKind {
+				missing = append(missing, fmt.Sprintf("struct:%s verified=%d", k, mutDone["struct:"+k]))
+			}
+		}
+		if len(missing) > 0 {
+			fmt.Fprintln(os.Stderr, "runner error: mutation kinds below their minimum count:", missing)
+			os.Exit(3)
+		}
+		run.Extra("mutation_kinds_tried", mutTried)
+		run.Extra("mutation_kinds_verified", mutDone)
+	}
 	run.Finish()
 }
 
